@@ -1,5 +1,6 @@
 import SmtpV.Basic
 import SmtpV.Model.DataReader
+import SmtpV.Spec.DataMon
 /-!
 Line-protocol driver: runs the *same definitions the theorems are about* on the case
 lines the Go harness receives.  One case per line, one answer per line.
@@ -30,10 +31,41 @@ def probeDR (f : List String) : String :=
       (if rf.limited then toString rf.n else "-")
   | _ => "DRIVER-BAD-CASE"
 
+def resOfName (s : String) : DataReader.Res :=
+  if s == "more" then .more else if s == "eof" then .eof else if s == "toolarge" then .tooLarge else .ueof
+
+def parseResults (s : String) : List (Bytes × DataReader.Res) :=
+  if s == "" then [] else
+  (s.splitOn ",").map fun part =>
+    match part.splitOn "/" with
+    | [h, r] => (bytesOfHex h, resOfName r)
+    | _ => ([], .ueof)
+
+/-- `mon dr <case fields> ## <answer fields>`: judge an observation with the DATA monitor -/
+def monDR (c a : List String) : String :=
+  match c, a with
+  | [_, lim, st, stream, _segs, sizes, _end], results :: rest :: _ =>
+    if natOf st != 0 then "ok"   -- the monitor speaks about fresh readers only
+    else
+      let l : Option Nat := if lim == "-" then none else some (natOf lim)
+      let bad := Spec.DataMon.check l (bytesOfHex stream) (natsOf sizes) (parseResults results) (bytesOfHex rest)
+      if bad.isEmpty then "ok" else "bad: " ++ String.intercalate "; " bad
+  | _, _ => "bad: unparsable observation"
+
+def runMon (f : List String) : String :=
+  -- f = "mon" :: case fields ++ ["##"] ++ answer fields
+  let body := f.drop 1
+  let c := body.takeWhile (· != "##")
+  let a := (body.dropWhile (· != "##")).drop 1
+  match c.head? with
+  | some "dr" => monDR c a
+  | _ => "ok"
+
 def runCase (line : String) : String :=
   let f := splitTab line
   match f.head? with
   | some "dr" => probeDR f
+  | some "mon" => runMon f
   | some p => "DRIVER-UNKNOWN-PROBE " ++ p
   | none => "DRIVER-EMPTY"
 
